@@ -268,12 +268,12 @@ func (Engine) PerProcess(prop string) int {
 func (Engine) Runs(prop, tier string) int {
 	if prop == "C20" {
 		if tier == "thorough" {
-			return 6000
+			return 3000 // every scenario executes hundreds to thousands of crash slots, each followed by three restarts
 		}
 		return 240
 	}
 	if tier == "thorough" {
-		return 150000
+		return 75000
 	}
 	return 15000
 }
